@@ -128,6 +128,7 @@ fn scen(spec: RunSpec) -> ScenFut {
             } else {
                 c.fail_before_pm = 12;
                 c.fail_after_pm = 12;
+                c.body_break_pm = 6;
                 c.fault_budget = nf;
                 c.crash_pm = 8;
                 c.crash_budget = nc;
